@@ -1,4 +1,5 @@
 //! C17 — results do not depend on the component representation (see DESIGN.md §4 C17).
+mod alphaconv;
 mod conv;
 mod graphs;
 mod hue;
@@ -126,6 +127,14 @@ fn replay(c: &mut Collector, rep: &Value) {
             "f64x4" => ops::replay_ops(&ops::types_f64x4(), case, c),
             o => panic!("unknown vector type {o}"),
         },
+        "alpha-conversions" => {
+            let ctx = Ctx { only: Some(format!("alpha-conversions/{vec}")), ..Ctx::from_args("C17").0 };
+            let mut all = Collector::new();
+            alphaconv::run(&ctx, &mut all);
+            let want = rep["signature"].as_str().unwrap_or("").to_string();
+            all.viol.retain(|k, _| *k == want);
+            c.merge(all);
+        }
         "slices" => {
             // small space: the sub-check is re-run and only the replayed signature kept
             let ctx = Ctx { only: Some(format!("slices/{vec}")), ..Ctx::from_args("C17").0 };
@@ -195,6 +204,7 @@ fn real_main() -> i32 {
     ops::run_ops(&ctx, &ops::types_f64x2(), &mut total);
     ops::run_ops(&ctx, &ops::types_f64x4(), &mut total);
     slices::run(&ctx, &mut total);
+    alphaconv::run(&ctx, &mut total);
     hue::run_hues(&ctx, &hue::types_f32x4(), &mut total);
     hue::run_hues(&ctx, &hue::types_f32x8(), &mut total);
     hue::run_hues(&ctx, &hue::types_f64x2(), &mut total);
